@@ -1096,6 +1096,21 @@ func (c *fctx) binary(at ast.Node, X ast.Expr, op token.Token, Y ast.Expr, opT t
 				c.sites = append(c.sites, fmt.Sprintf("nil test of a slice (line %d): %s — a nil slice and an empty one are the same value in the translation", c.t.pr.line(at.Pos()), c.t.pr.text(c.fi.Pkg, X)))
 			}
 		}
+		// a slice of structs compared with nil: emptiness (no equality test on the element type is needed)
+		if c.isNil(Y) {
+			if sl, isSlice := c.typeOf(X).Underlying().(*types.Slice); isSlice {
+				et := sl.Elem()
+				if p, ok := et.(*types.Pointer); ok {
+					et = p.Elem()
+				}
+				if _, isStruct := et.Underlying().(*types.Struct); isStruct {
+					if op == token.EQL {
+						return "(" + c.expr(X) + ").isEmpty"
+					}
+					return "(!(" + c.expr(X) + ").isEmpty)"
+				}
+			}
+		}
 		switch {
 		case c.isNil(Y):
 			return "(" + c.expr(X) + " " + o + " " + c.exprAs(Y, c.typeOf(X)) + ")"
@@ -3864,8 +3879,14 @@ func (t *ftr) translate(fi *FuncInfo, from *fctx, at ast.Node) string {
 	}
 	spec := t.specs[fi.Obj]
 	if spec == nil && from != nil {
-		// a callee that is not itself listed: translated like the others (its loops need no fuel table)
+		// a callee that is not itself listed (a helper the listed function was split into): translated under the caller's
+		// directives — what is abstract, opaque, an error constructor or an exit for the caller is so for its helper
 		spec = &funcSpec{rel: fi.Pkg.Rel, name: fi.Name}
+		if from.spec != nil {
+			spec.abstract, spec.opaque, spec.errInts, spec.allowWrap = from.spec.abstract, from.spec.opaque, from.spec.errInts, from.spec.allowWrap
+			spec.errCtors, spec.wrapTransparent, spec.exits = from.spec.errCtors, from.spec.wrapTransparent, from.spec.exits
+			spec.tape, spec.world, spec.threaded, spec.logs = from.spec.tape, from.spec.world, from.spec.threaded, from.spec.logs
+		}
 	}
 	t.busy[fi.Obj] = true
 	savedOpaque := curOpaque
